@@ -443,3 +443,6 @@ for first in (0, 1):
 not_reproduced()
 """
     return None
+
+# level text addendum (cases added after the seeded-change rounds)
+LEVEL_TEXT = LEVEL_TEXT + ' Also: boolean masks and index arrays as channel selectors, read_samples for every pair of bounds (empty ones included), two read_sync calls on different stretches of one reader.'
